@@ -53,6 +53,16 @@ theorem wfCheck_sound {g : GraphVal} (h : wfCheck g = true) : WF g := by
   (`resolveInsts` + `resolveExplicit`); C03 (`canonical_kind`, `iface_named`) is where these
   facts are established from properties of the graph alone. -/
 
+/-- the aggregated imports as the import loop sees them (interfaces replaced by the merged ones) -/
+def fixedImports (agg : Agg) : List (Str × ItemTy) := agg.imports.map fun e => (e.1, agg.fix e.2)
+
+def allDepsOf (l : List (Str × ItemTy)) : List Str := l.flatMap (·.2.deps)
+
+/-- interface id `i` is private: no import is named like it and no import depends on it -/
+def privIn (l : List (Str × ItemTy)) (i : Str) : Prop := i ∉ l.map (·.1) ∧ i ∉ allDepsOf l
+
+instance (l : List (Str × ItemTy)) (i : Str) : Decidable (privIn l i) := by unfold privIn; infer_instance
+
 /-- the kind under which the import that `name` resolves to is imported -/
 def aggKind (agg : Agg) (name : Str) : Option Kind := (amGet agg.imports (agg.canonical name)).map (·.kind)
 
@@ -60,18 +70,26 @@ structure AggOk (g : GraphVal) (agg : Agg) : Prop where
   /-- import names are distinct (`IndexMap`) -/
   keysNodup : (agg.imports.map (·.1)).Nodup
   /-- an instance import of a named interface is imported under the name of the interface
-      (fails exactly for the shape of known finding `enc-explicit-interface-import-merged`,
-      and for an instance import superseded by a higher version of its interface) -/
-  ifaceNamed : ∀ e ∈ agg.imports, e.2.kind = .instance → (agg.fix e.2).iface = none ∨ (agg.fix e.2).iface = some e.1
+      or the interface is mentioned by nothing else: no import is named like it, depends on it
+      or is of it (fails exactly for the shape of known finding
+      `enc-explicit-interface-import-merged`) -/
+  ifaceNamed : ∀ e ∈ fixedImports agg, e.2.kind = .instance → e.2.iface = none ∨ e.2.iface = some e.1 ∨
+    ∃ i, e.2.iface = some i ∧ privIn (fixedImports agg) i ∧ ∀ e' ∈ fixedImports agg, e'.1 ≠ e.1 → e'.2.iface ≠ some i
   /-- every unsatisfied argument resolves to an import of its own kind -/
   implicitKind : ∀ n ∈ g.nodes, ∀ slot sat p, n.kind = .instantiation slot sat → g.pkg? slot = some p →
     ∀ r ∈ unsatisfied p sat, aggKind agg r.name = some r.ty.kind
   /-- every explicit import resolves to an import of its own kind -/
   explicitKind : ∀ n ∈ g.nodes, ∀ nm, n.kind = .import nm → aggKind agg nm = some n.ty.kind
 
+def ifaceEntryOk (l : List (Str × ItemTy)) (e : Str × ItemTy) : Bool :=
+  e.2.kind != .instance ||
+  match e.2.iface with
+  | none => true
+  | some i => i == e.1 || (decide (privIn l i) && l.all fun e' => e'.1 == e.1 || e'.2.iface != some i)
+
 def aggOkCheck (g : GraphVal) (agg : Agg) : Bool :=
   decide (agg.imports.map (·.1)).Nodup &&
-  agg.imports.all (fun e => decide (e.2.kind = .instance → (agg.fix e.2).iface = none ∨ (agg.fix e.2).iface = some e.1)) &&
+  (fixedImports agg).all (ifaceEntryOk (fixedImports agg)) &&
   g.nodes.all (fun n => match n.kind with
     | .instantiation slot sat => match g.pkg? slot with
       | some p => (unsatisfied p sat).all fun r => decide (aggKind agg r.name = some r.ty.kind)
@@ -82,7 +100,22 @@ def aggOkCheck (g : GraphVal) (agg : Agg) : Bool :=
 theorem aggOkCheck_sound {g : GraphVal} {agg : Agg} (h : aggOkCheck g agg = true) : AggOk g agg := by
   simp only [aggOkCheck, Bool.and_eq_true, decide_eq_true_eq, List.all_eq_true] at h
   obtain ⟨⟨h1, h2⟩, h3⟩ := h
-  refine ⟨h1, fun e he => h2 e he, ?_, ?_⟩
+  refine ⟨h1, ?_, ?_, ?_⟩
+  · intro e he hk
+    have := h2 e he
+    unfold ifaceEntryOk at this
+    cases hif : e.2.iface with
+    | none => exact Or.inl rfl
+    | some i =>
+      simp only [hif, hk, bne_self_eq_false, Bool.false_or, Bool.or_eq_true, beq_iff_eq, Bool.and_eq_true,
+        decide_eq_true_eq, List.all_eq_true, bne_iff_ne, ne_eq] at this
+      rcases this with h | ⟨h3, h4⟩
+      · exact Or.inr (Or.inl (by rw [h]))
+      · refine Or.inr (Or.inr ⟨i, rfl, h3, ?_⟩)
+        intro e' he' hne
+        rcases h4 e' he' with h5 | h5
+        · exact absurd h5 hne
+        · exact h5
   · intro n hn slot sat p hk hp r hr
     have := h3 n hn
     simp only [hk, hp, List.all_eq_true, decide_eq_true_eq] at this
